@@ -668,12 +668,35 @@ Proof.
 Qed.
 
 (* ---------- AddPartitionsToTxn / AddOffsetsToTxn applied ------------------------------------------------ *)
+Lemma owner_is_true e t : owner_is e t = true -> eowner e = Some t.
+Proof.
+  unfold owner_is. destruct (eowner e) as [[a b]|]; [|discriminate]. destruct t as [a' b'].
+  unfold tag_eqb. simpl. intros H. apply andb_prop in H. destruct H as [H1 H2].
+  apply Nat.eqb_eq in H1. apply Nat.eqb_eq in H2. subst. reflexivity.
+Qed.
+Lemma owner_is_refl e t : eowner e = Some t -> owner_is e t = true.
+Proof.
+  unfold owner_is. intros ->. destruct t as [a b]. unfold tag_eqb. simpl. rewrite !Nat.eqb_refl. reflexivity.
+Qed.
+
+Lemma option_tag_dec (a b : option tag) : {a = b} + {a <> b}.
+Proof. repeat decide equality. Qed.
+
+Lemma no_open_spec en p : no_open en = true -> In p (eparts en) -> rc_open_t (log_of p (glog en)) = [].
+Proof.
+  unfold no_open. intros H I. rewrite forallb_forall in H. specialize (H p I).
+  destruct (rc_open_t (log_of p (glog en))); [reflexivity | discriminate].
+Qed.
+
 Lemma linv_add s i c ps c' :
   cl s i = Some c -> linv s -> not_prep (genv s) = true ->
-  (* obligation 3 *)
-  (if is_ongoing (genv s) then eowner (genv s) = Some (i, kcur c) else cowned c = false) ->
+  (* obligation 3: the open coordinator transaction is this application transaction's, or it holds no data
+     and this application transaction has not had one of its own; with none open, it has not had one *)
+  (if is_ongoing (genv s)
+   then eowner (genv s) = Some (i, kcur c) \/ (no_open (genv s) = true /\ cowned c = false)
+   else cowned c = false) ->
   kcur c' = kcur c -> csent c' = csent c -> capp c' = capp c -> accepted c' = accepted c -> cst c' = cst c ->
-  cowned c' = (cowned c || negb (is_ongoing (genv s))) ->
+  cowned c' = (cowned c || negb (owner_is (genv s) (tagof i c))) ->
   linv (put_env (put s i c') (env_add (genv s) ps (tagof i c))).
 Proof.
   intros Hc [E1 E2 E3 E5 L12 L11 L10 L2 L1 L5 L6 L8 L9 L7 L14] NP Ob Sk Ss Sa Sacc Sst So.
@@ -692,51 +715,64 @@ Proof.
     - exists c0. rewrite Ho by exact N. auto. }
   assert (OngE : is_ongoing (genv s) = true -> est (genv s) = EOngoing).
   { unfold is_ongoing. destruct (est (genv s)); congruence. }
-  constructor; unfold s'; simpl.
-  - intros [K|(b & K)]; discriminate.
-  - intros p tg x K. destruct (E2 _ _ _ K) as (A & B & C).
-    assert (Og : is_ongoing (genv s) = true).
-    { unfold is_ongoing, not_prep in *. destruct A as [A|(b & A)]; rewrite A in *; [reflexivity | discriminate]. }
-    rewrite Og. split; [left; reflexivity|]. split; [exact B|]. apply unionn_In. auto.
+  (* the owner afterwards is this application transaction *)
+  assert (NO : eowner (genv s') = Some (i, kcur c)).
+  { unfold s'. simpl. unfold tagof. destruct (is_ongoing (genv s)); [|reflexivity].
+    destruct (no_open (genv s)) eqn:N; [reflexivity|]. destruct Ob as [Ob|(Ob & _)]; congruence. }
+  (* if it was not the owner before, nothing is open and it has not had a transaction of its own *)
+  assert (Fresh : eowner (genv s) <> Some (i, kcur c) ->
+                  (forall p tg x, ~ In (tg, x) (rc_open_t (log_of p (glog (genv s))))) /\ cowned c = false).
+  { intros Ne. destruct (is_ongoing (genv s)) eqn:Og.
+    - destruct Ob as [Ob|(Ob1 & Ob2)]; [congruence|]. split; [|exact Ob2].
+      intros p tg x K. destruct (E2 _ _ _ K) as (_ & _ & C). rewrite (no_open_spec _ _ Ob1 C) in K. destruct K.
+    - split; [|exact Ob]. intros p tg x K. destruct (E2 _ _ _ K) as (A & _).
+      unfold is_ongoing, not_prep in *. destruct A as [A|(b & A)]; rewrite A in *; discriminate. }
+  constructor.
+  - unfold s'; simpl. intros [K|(b & K)]; discriminate.
+  - intros p tg x K. assert (K0 : In (tg, x) (rc_open_t (log_of p (glog (genv s))))) by exact K.
+    destruct (E2 _ _ _ K0) as (A & B & C).
+    split; [left; reflexivity|]. split.
+    + rewrite NO. destruct (option_tag_dec (eowner (genv s)) (Some (i, kcur c))) as [Q|Q]; [congruence|].
+      exfalso. exact (proj1 (Fresh Q) _ _ _ K0).
+    + unfold s'; simpl. apply unionn_In. auto.
   - exact E3.
-  - intros c0 K. discriminate.
-  - intros j k K. destruct (is_ongoing (genv s)) eqn:Og.
-    + destruct (L12 _ _ K) as (c0 & A & B). destruct (Nat.eq_dec j i) as [->|N].
-      * rewrite Hc in A. inversion A; subst c0. exists c'. split; [exact Hc'|]. lia.
-      * exists c0. fold s'. rewrite Ho by exact N. auto.
-    + inversion K; subst. exists c'. split; [exact Hc'|]. lia.
-  - intros j c0 A B. fold s' in A. destruct (Nat.eq_dec j i) as [->|N].
-    + rewrite Hc' in A. inversion A; subst c0. rewrite So. destruct (is_ongoing (genv s)) eqn:Og.
-      * rewrite (L11 i c Hc); [reflexivity | congruence].
-      * apply orb_true_r.
-    + rewrite Ho in A by exact N. destruct (is_ongoing (genv s)) eqn:Og; [eauto|].
-      inversion B. congruence.
-  - intros j c0 A B. fold s' in A. destruct (Nat.eq_dec j i) as [->|N].
+  - unfold s'; simpl. intros c0 K. discriminate.
+  - intros j k K. rewrite NO in K. inversion K; subst. exists c'. split; [exact Hc'|]. lia.
+  - intros j c0 A B. rewrite NO in B. destruct (Nat.eq_dec j i) as [->|N].
+    + rewrite Hc' in A. inversion A; subst c0. rewrite So.
+      destruct (option_tag_dec (eowner (genv s)) (Some (i, kcur c))) as [Q|Q].
+      * rewrite (L11 i c Hc Q). reflexivity.
+      * destruct (owner_is (genv s) (tagof i c)) eqn:Ow; [|apply orb_true_r].
+        apply owner_is_true in Ow. exfalso. apply Q. exact Ow.
+    + inversion B. congruence.
+  - intros j c0 A B. destruct (Nat.eq_dec j i) as [->|N].
     + rewrite Hc' in A. inversion A; subst c0. rewrite Sa. rewrite So in B.
       apply orb_false_iff in B. destruct B as [B _]. eauto.
     + rewrite Ho in A by exact N. eauto.
-  - intros j c0 A B _ x p C. fold s' in A. destruct (is_ongoing (genv s)) eqn:Og.
-    + assert (K : In ((j, kcur c0), x) (rc_open_t (log_of p (glog (genv s)))) /\ In p (eparts (genv s))).
-      { destruct (Nat.eq_dec j i) as [->|N].
-        - rewrite Hc' in A. inversion A; subst c0. rewrite Sk. rewrite Sa in C. rewrite Sk in B.
-          apply (L2 i c Hc); auto.
-        - rewrite Ho in A by exact N. apply (L2 j c0 A); auto. }
-      destruct K as (K1 & K2). split; [exact K1 | apply unionn_In; auto].
-    + inversion B; subst. rewrite Hc' in A. inversion A; subst c0. rewrite Sa in C.
-      rewrite (L10 j c Hc Ob) in C. destruct C.
-  - intros j c0 A B x p C. fold s' in A. apply V. destruct (Nat.eq_dec j i) as [->|N].
+  - intros j c0 A B _ x p C. rewrite NO in B. destruct (Nat.eq_dec j i) as [->|N].
+    + rewrite Hc' in A. inversion A; subst c0. rewrite Sa in C. rewrite Sk.
+      destruct (option_tag_dec (eowner (genv s)) (Some (i, kcur c))) as [Q|Q].
+      * destruct (is_ongoing (genv s)) eqn:Og.
+        -- destruct (L2 i c Hc Q (OngE eq_refl) x p C) as (K1 & K2).
+           split; [exact K1 | unfold s'; simpl; apply unionn_In; auto].
+        -- exfalso. assert (Z : est (genv s) = EEmpty \/ (exists c0, est (genv s) = EDone c0)).
+           { unfold is_ongoing, not_prep in *. destruct (est (genv s)) eqn:Z; try discriminate; eauto. }
+           destruct (E1 Z) as (_ & Z2). congruence.
+      * rewrite (L10 i c Hc (proj2 (Fresh Q))) in C. destruct C.
+    + inversion B. congruence.
+  - intros j c0 A B x p C. apply V. destruct (Nat.eq_dec j i) as [->|N].
     + rewrite Hc' in A. inversion A; subst c0. rewrite Sk. apply (L1 i c Hc); congruence.
     + rewrite Ho in A by exact N. eauto.
-  - intros j k A K. discriminate.
+  - unfold s'; simpl. intros j k A K. discriminate.
   - intros j k A. apply CK. eauto.
   - intros j k o acc A. destruct (L8 _ _ _ _ A) as (c0 & B & C). destruct (Nat.eq_dec j i) as [->|N].
     + rewrite Hc in B. inversion B; subst c0. exists c'. split; [exact Hc'|]. rewrite Sk, Sst. exact C.
-    + exists c0. fold s'. rewrite Ho by exact N. auto.
-  - intros j c0 A B C. fold s' in A. apply EC. destruct (Nat.eq_dec j i) as [->|N].
+    + exists c0. rewrite Ho by exact N. auto.
+  - intros j c0 A B C. apply EC. destruct (Nat.eq_dec j i) as [->|N].
     + rewrite Hc' in A. inversion A; subst c0. rewrite Sk. apply (L9 i c Hc); congruence.
     + rewrite Ho in A by exact N. eauto.
   - intros j k acc A. destruct (L7 _ _ _ A) as (B & C). split; [exact B|].
-    intros c0 D F. fold s' in D. destruct (Nat.eq_dec j i) as [->|N].
+    intros c0 D F. destruct (Nat.eq_dec j i) as [->|N].
     + rewrite Hc' in D. inversion D; subst c0. rewrite Ss. apply (C c Hc). congruence.
     + rewrite Ho in D by exact N. eauto.
   - intros j k acc A x p B. apply V. eauto.
@@ -938,12 +974,7 @@ Proof.
   - congruence.
 Qed.
 
-Lemma owner_is_true e t : owner_is e t = true -> eowner e = Some t.
-Proof.
-  unfold owner_is. destruct (eowner e) as [[a b]|]; [|discriminate]. destruct t as [a' b'].
-  unfold tag_eqb. simpl. intros H. apply andb_prop in H. destruct H as [H1 H2].
-  apply Nat.eqb_eq in H1. apply Nat.eqb_eq in H2. subst. reflexivity.
-Qed.
+
 Lemma is_ongoing_true e : is_ongoing e = true -> est e = EOngoing.
 Proof. unfold is_ongoing. destruct (est e); congruence. Qed.
 
@@ -1110,7 +1141,10 @@ Proof.
       unfold ob in Ob. rewrite Hg in Ob.
       apply linv_add; auto.
       destruct (is_ongoing (genv s)).
-      * destruct (owner_is (genv s) (tagof i c)) eqn:Ow; [|discriminate]. apply owner_is_true in Ow. exact Ow.
+      * destruct (owner_is (genv s) (tagof i c)) eqn:Ow.
+        -- left. apply owner_is_true in Ow. exact Ow.
+        -- simpl in Ob. destruct (no_open (genv s)); [|discriminate].
+           destruct (cowned c); [discriminate|]. right. split; reflexivity.
       * destruct (cowned c); [discriminate | reflexivity].
     + inv_some. apply (linv_put_same s i c); auto. constructor; reflexivity.
   - (* RAddOffs *)
@@ -1122,7 +1156,10 @@ Proof.
       unfold ob in Ob. rewrite Hg in Ob.
       apply linv_add; auto.
       destruct (is_ongoing (genv s)).
-      * destruct (owner_is (genv s) (tagof i c)) eqn:Ow; [|discriminate]. apply owner_is_true in Ow. exact Ow.
+      * destruct (owner_is (genv s) (tagof i c)) eqn:Ow.
+        -- left. apply owner_is_true in Ow. exact Ow.
+        -- simpl in Ob. destruct (no_open (genv s)); [|discriminate].
+           destruct (cowned c); [discriminate|]. right. split; reflexivity.
       * destruct (cowned c); [discriminate | reflexivity].
     + inv_some. apply (linv_put_same s i c); auto. constructor; reflexivity.
   - (* RToc *)
